@@ -1,0 +1,18 @@
+//go:build !verif
+
+// Package verifhook provides trace/crash/gate hooks used by the external
+// verification harness. Without the "verif" build tag every function is an
+// empty inlinable stub and On is a false constant, so call sites cost nothing.
+package verifhook
+
+// On reports whether the hooks are compiled in.
+const On = false
+
+// Emit records one trace event (no-op without the verif build tag).
+func Emit(_ string, _ string, _ ...any) {}
+
+// CrashPoint kills the process when selected by the environment (no-op without the verif build tag).
+func CrashPoint(_ string) {}
+
+// Gate blocks at a named point while the harness holds it (no-op without the verif build tag).
+func Gate(_ string) {}
